@@ -255,7 +255,7 @@ def main(argv: List[str]) -> int:
     for sig, (run, res) in sorted(first_fail.items()):
         msg = next(v["msg"] for v in res["violations"] if v["sig"] == sig)
         # minimise: the simplest world that still shows it (empty directory, default environment)
-        simple = dict(run, state="empty", fault=None, env={"hashseed": "0", "uuid_seed": None, "ls_seed": None})
+        simple = dict(run, state="empty", fault=None, env={"hashseed": "0", "uuid_seed": None, "ls_seed": None, "locale": None})
         r2 = worker_run(simple)
         if sig in {v["sig"] for v in r2.get("violations", [])}:
             run, res = simple, r2
